@@ -113,6 +113,18 @@ impl RTreePlugin {
             read_utils::from_csv(&vertex_file, true, None).map_err(|e| {
                 InputPluginError::BuildFailed(format!("failure reading vertex file: {}", e))
             })?;
+        if let Some(v) = vertices
+            .iter()
+            .find(|v| !v.x().is_finite() || !v.y().is_finite())
+        {
+            return Err(InputPluginError::BuildFailed(format!(
+                "vertex {} has a non-finite coordinate ({}, {})",
+                v.vertex_id,
+                v.x(),
+                v.y()
+            ))
+            .into());
+        }
         let vertex_rtree = VertexRTree::new(vertices.to_vec());
         let tolerance = match (tolerance_distance, distance_unit) {
             (None, None) => None,
